@@ -2,9 +2,12 @@ pub mod common;
 pub mod c01;
 pub mod c03;
 pub mod c04;
+pub mod c05;
+pub mod c17;
+pub mod c19;
 
 use crate::engine::Prop;
 
 pub fn registry() -> Vec<Prop> {
-    vec![c01::prop(), c03::prop(), c04::prop()]
+    vec![c01::prop(), c03::prop(), c04::prop(), c05::prop(), c17::prop(), c19::prop()]
 }
